@@ -146,7 +146,7 @@ PROPS = {
                   FROZEN: ["C13_retried_attempt_undecided", "C18_decided_records_completed"]},
         keys=["status", "staged", "sequence", "contexts"], offers="full",
         prof=dict(p_retry=0.8, max_tasks=4, p_template=0.3, templates=[10, 10, 10, 3, 3]), hist=dict(p_fail=0.5, p_pause=0.05, p_dup_report=0.2), monitor="C13",
-        unproven=["the bound is proved on the tally (C13_tally_bounded: every history, every evaluator); that each re-offer corresponds to one bump of the tally, the delay of re-offers and the absence of transitions from a retried attempt are monitored, not proved"],
+        unproven=["that each re-offer corresponds to exactly one bump of the tally, and the delay of re-offers, are monitored, not proved; proved along every history: the tally never exceeds the count (C13_tally_bounded) and a retried attempt has no recorded decision, hence no transition, publish or handler (C13_retried_attempt_undecided)"],
     ),
     "C14": dict(
         title="composed graph is exactly the definition",
